@@ -30,6 +30,11 @@ class SamplerCore:
         self.config = config
         self.state = state
 
+        # All sampling steps draw from numpy's global stream: apply the requested
+        # seed when the sampler is constructed so that seeded runs are reproducible
+        if config.random_state is not None:
+            np.random.seed(config.random_state)
+
         # Initialize components (moved from Sampler._initialize_steps)
         from .steps.reweight import Reweighter
         from .steps.train import Trainer
